@@ -37,6 +37,17 @@ type mwallet struct {
 	id     string
 	issued []issuedAddr
 	owns   map[[32]byte]bool
+	// addresses of the internal (change) branch that the wallet holds because it was restored with a
+	// non-zero internal index; payments may go there too
+	internal []issuedAddr
+}
+
+// payable lists every address of the wallet a generated payment may go to.
+func (m *mwallet) payable() []issuedAddr {
+	if len(m.internal) == 0 {
+		return m.issued
+	}
+	return append(append([]issuedAddr(nil), m.issued...), m.internal...)
 }
 
 func (m *mwallet) stdAddrs() []string {
@@ -56,6 +67,7 @@ type World struct {
 	tipAnnounced      bool
 	journal           []string
 	bindCounter       uint64
+	internalHint      uint32 // wallets are restored with this internal index (0 = none)
 	forcedReorgDepth  int
 	forcedEqualLength bool
 	flags             map[string]bool
@@ -109,6 +121,7 @@ func newWorld(t *rapid.T, nWallets int, gap uint32, wrap func(mwdb.DB) mwdb.DB) 
 		w.close()
 		t.Fatalf("HARNESS: start: %v", err)
 	}
+	w.internalHint = worldInternalHint
 	if worldRecording {
 		w.recording = true
 		w.ctl = worldRecCtl
@@ -155,7 +168,7 @@ func (w *World) importNewWallet(t *rapid.T, n int) *mwallet {
 	}
 	w.record(hstep{Kind: "import", Keys: keys})
 	ws, err := w.env.W.ImportWalletWithMnemonic(&keystore.WalletParams{Mnemonic: keys.Mnemonic,
-		PrivatePassphrase: []byte(keys.Pass), Remarks: fmt.Sprintf("w%d", n), AddressGapLimit: w.gap})
+		PrivatePassphrase: []byte(keys.Pass), Remarks: fmt.Sprintf("w%d", n), InternalIndex: w.internalHint, AddressGapLimit: w.gap})
 	if err != nil {
 		t.Fatalf("ImportWalletWithMnemonic(%q): %v", keys.Mnemonic, err)
 	}
@@ -163,7 +176,13 @@ func (w *World) importNewWallet(t *rapid.T, n int) *mwallet {
 	w.wallets = append(w.wallets, m)
 	w.finishTasks(t)
 	w.syncIssued(t, m)
-	w.logf("import wallet %d id=%s addrs=%d", n, m.id, len(m.issued))
+	for i := uint32(0); i < w.internalHint; i++ {
+		a := keys.AddrInternal(i)
+		m.internal = append(m.internal, issuedAddr{Index: i, Class: massutil.AddressClassWitnessV0, Addr: a.Std, Std: a.Std, Hash: a.ScriptHash})
+		m.owns[a.ScriptHash] = true
+		w.flag("internal-branch-addresses")
+	}
+	w.logf("import wallet %d id=%s addrs=%d internal=%d", n, m.id, len(m.issued), len(m.internal))
 	return m
 }
 
@@ -278,8 +297,8 @@ func (w *World) pickDest(t *rapid.T, height uint64, hasBindingIn bool, budget in
 	ownerHash := func() [32]byte {
 		if len(w.wallets) > 0 && rapid.IntRange(0, 5).Draw(t, "toWallet") > 0 {
 			m := w.wallets[rapid.IntRange(0, len(w.wallets)-1).Draw(t, "destWallet")]
-			if len(m.issued) > 0 {
-				return m.issued[rapid.IntRange(0, len(m.issued)-1).Draw(t, "destAddr")].Hash
+			if pa := m.payable(); len(pa) > 0 {
+				return pa[rapid.IntRange(0, len(pa)-1).Draw(t, "destAddr")].Hash
 			}
 		}
 		return w.strangers[rapid.IntRange(0, len(w.strangers)-1).Draw(t, "stranger")]
@@ -293,7 +312,8 @@ func (w *World) pickDest(t *rapid.T, height uint64, hasBindingIn bool, budget in
 		if len(m.issued) == 0 {
 			return sim.StdScript(w.strangers[0]), 1, false
 		}
-		a := m.issued[rapid.IntRange(0, len(m.issued)-1).Draw(t, "destAddr")]
+		pa := m.payable()
+		a := pa[rapid.IntRange(0, len(pa)-1).Draw(t, "destAddr")]
 		return sim.StdScript(a.Hash), 1, false
 	case "stranger":
 		return sim.StdScript(w.strangers[rapid.IntRange(0, len(w.strangers)-1).Draw(t, "stranger")]), 1, false
@@ -452,7 +472,8 @@ func (w *World) coinbaseOuts(t *rapid.T) []*wire.TxOut {
 		var h [32]byte
 		if len(w.wallets) > 0 && rapid.IntRange(0, 3).Draw(t, "cbToWallet") > 0 {
 			m := w.wallets[rapid.IntRange(0, len(w.wallets)-1).Draw(t, "cbWallet")]
-			h = m.issued[rapid.IntRange(0, len(m.issued)-1).Draw(t, "cbAddr")].Hash
+			pa := m.payable()
+			h = pa[rapid.IntRange(0, len(pa)-1).Draw(t, "cbAddr")].Hash
 			w.flag("coinbase-to-wallet")
 		} else {
 			h = w.strangers[rapid.IntRange(0, len(w.strangers)-1).Draw(t, "cbStranger")]
@@ -834,6 +855,8 @@ func dumpBlock(b *massutil.Block) string {
 var (
 	worldRecording bool
 	worldRecCtl    *xdb.Ctl
+	// worldInternalHint: wallets of the next worlds are restored with this internal index
+	worldInternalHint uint32
 )
 
 // hstep is one recorded step of a history: node operations carry the concrete block so that the
